@@ -10,6 +10,7 @@ mod modmc;
 mod itermc;
 mod strmc;
 mod serdemc;
+mod fmtmc;
 mod workers;
 mod run;
 mod hostobj;
@@ -63,6 +64,7 @@ fn main() {
         "itermc" => itermc::run(&args),
         "strmc" => strmc::run(&args),
         "serdemc" => serdemc::run(&args),
+        "fmtmc" => fmtmc::run(&args),
         "progmc-core" => progmc::run_profile(
             &args,
             run::RunCfg::default(),
